@@ -20,6 +20,7 @@ Ops(St, c, ops, i) ==
     IF i > Len(ops) THEN St
     ELSE LET o == ops[i]
              St2 == IF o.kind \in {"local", "shared"} THEN Var(St, c, o.ck)
+                    ELSE IF o.kind \notin {"chan", "tcp"} \/ Len(o.ch) = 0 THEN St   \* resources without clocks
                     ELSE IF o.t = "write" THEN Send(St, c, o.kind, Last(o.ch))
                     ELSE Recv(St, c, o.kind, Last(o.ch))
          IN Ops(St2, c, ops, i + 1)
